@@ -1,5 +1,8 @@
-(* c09 / c10 model driver.  One case per line (same syntax as harness/src/symcase.rs):
-     <segment>* | <schedule token>*      segment = x<hex> | r<hh>*<count> | t<ignored label>     schedule = <n> | <n>*<k>
+(* c10 model driver.  One case per line (same syntax as harness/src/bin/c10.rs):
+     <segment>* | <schedule token>* [ | <stream token>* ]
+     segment = x<hex> | r<hh>*<count> | t<ignored label>     schedule = <n> | <n>*<k>
+     stream  = <n> | <n>*<k> (a body chunk of n bytes, n = 0: an empty chunk) | E (the body fails here); then the rest of the
+               input as one chunk and the end of the body.  Without the third section: the schedule's sizes (>= 1) as chunks.
    The bytes are cut into '\n'-terminated lines (each kept run-length encoded, without its
    '\n') and the rest after the last '\n'; the model only needs the length of that rest.
    Answer:  R=<OK|E<code>:<line>|P<tag>|FUEL>;cb=<bytes>,<calls>;nr=<reads>;ms=<max space>;ev=<hash of the read/callback event sequence>,<events>;T=<canonical symbol table>
@@ -147,6 +150,33 @@ let async_chunks (total : int) (sched : int list) : int list =
   in
   go total sched []
 
+(* the body script of a case: explicit (third section; sizes clipped to what is left, nothing after a failure, the rest as a
+   last chunk) or derived from the schedule *)
+let split_bar (toks : string list) : string list * string list option =
+  let rec go acc = function
+    | [] -> (List.rev acc, None)
+    | "|" :: rest -> (List.rev acc, Some rest)
+    | t :: rest -> go (t :: acc) rest
+  in
+  go [] toks
+
+let stream_script (total : int) (toks : string list) : sev list =
+  let evs = List.concat_map (fun t ->
+      if t = "E" then [None]
+      else match String.index_opt t '*' with
+        | Some i ->
+          let n = int_of_string (String.sub t 0 i) in
+          let k = int_of_string (String.sub t (i + 1) (String.length t - i - 1)) in
+          List.init k (fun _ -> Some n)
+        | None -> [Some (int_of_string t)]) toks in
+  let rec go left evs acc =
+    match evs with
+    | [] -> List.rev (if left > 0 then SChunk (z_of_int left) :: acc else acc)
+    | None :: _ -> List.rev (SFail :: acc)
+    | Some n :: t -> let n = min n left in go (left - n) t (SChunk (z_of_int n) :: acc)
+  in
+  go total evs []
+
 let with_async = Array.length Sys.argv > 1 && Sys.argv.(1) = "async"
 
 let () =
@@ -154,7 +184,8 @@ let () =
     while true do
       let line = input_line stdin in
       if String.length line > 0 && line.[0] <> '#' then begin
-        let runs, stoks = parse_case line in
+        let runs, stoks0 = parse_case line in
+        let stoks, script_toks = split_bar stoks0 in
         let lines, tail = split_lines runs in
         let conv l = List.map (fun (b, c) -> (z_of_int b, z_of_int c)) l in
         let tail_len = List.fold_left (fun a (_, c) -> a + c) 0 tail in
@@ -170,8 +201,10 @@ let () =
         let async_part =
           if not with_async then "" else begin
             let total = List.fold_left (fun a l -> a + 1 + List.fold_left (fun a (_, c) -> a + c) 0 l) tail_len lines in
-            let chunks = async_chunks total (List.map int_of_z zs) in
-            let (ao, atr) = run_async zlines ztail (List.map z_of_int chunks) in
+            let script = match script_toks with
+              | Some toks -> stream_script total toks
+              | None -> List.map (fun n -> SChunk (z_of_int n)) (async_chunks total (List.map int_of_z zs)) in
+            let (ao, atr) = run_stream zlines ztail script in
             Printf.sprintf ";A=%s;acb=%s,%s;aev=%s,%s;AT=%s"
               (cls (o_kind ao) (o_code ao) (o_line ao)) (string_of_z (o_cb ao)) (string_of_z (o_ncb ao))
               (string_of_z (tr_hash atr)) (string_of_z (tr_events atr))
